@@ -50,9 +50,13 @@ typename strategy<T>::offspring_t base<T>::run(
   Expects(0.0 <= p_cross && p_cross <= 1.0);
   Expects(0.0 <= p_mutation && p_mutation <= 1.0);
   Expects(brood_recombination);
-  Expects(parent.size() >= 2);
+  Expects(!parent.empty());
 
-  const auto r1(parent[0]), r2(parent[1]);
+  // A tournament of size 1 is equivalent to selecting individuals at random
+  // (see `environment::tournament_size`): the selection phase returns a single
+  // parent and the mate is picked at random in its mating zone.
+  const auto r1(parent[0]);
+  const auto r2(parent.size() > 1 ? parent[1] : pickup(pop, parent[0]));
 
   if (random::boolean(p_cross))
   {
@@ -117,7 +121,7 @@ template<class T>
 typename strategy<T>::offspring_t de<T>::run(
   const typename strategy<T>::parents_t &parent)
 {
-  Expects(parent.size() >= 2);
+  Expects(!parent.empty());
 
   const auto &pop(this->pop_);
   const auto &env(pop.get_problem().env);
@@ -128,7 +132,11 @@ typename strategy<T>::offspring_t de<T>::run(
   const auto a(pickup(pop, parent[0]));
   const auto b(pickup(pop, parent[0]));
 
+  // With a tournament of size 1 the selection phase returns a single
+  // individual: the second parent is picked at random in its mating zone.
+  const auto c(parent.size() > 1 ? parent[1] : pickup(pop, parent[0]));
+
   return {pop[parent[0]].crossover(env.p_cross, env.de.weight,
-                                   pop[parent[1]], pop[a], pop[b])};
+                                   pop[c], pop[a], pop[b])};
 }
 #endif  // include guard
